@@ -27,6 +27,8 @@ type guard struct {
 	notCovering bool
 	// inner: for a guard lifted from a helper, the helper's own branch (loop context of the check)
 	inner *ssa.If
+	// lifted: translated from a helper called at iff/ret
+	lifted bool
 }
 
 func (g guard) key() string { return g.decider + "(" + strings.Join(g.fields, ",") + ")" }
@@ -1139,7 +1141,7 @@ func liftFrom(fn *ssa.Function, call *ssa.Call, g *ssa.Function, onParam bool, c
 				}
 				deciderBind = prev
 			}
-			lg := guard{fn: fn, iff: Giff, ret: Gret, decider: dec, fields: fields, cond: S.cond, pos: S.pos, passBlk: GpassBlk, inner: S.iff}
+			lg := guard{fn: fn, iff: Giff, ret: Gret, decider: dec, fields: fields, cond: S.cond, pos: S.pos, passBlk: GpassBlk, inner: S.iff, lifted: true}
 			if S.inner != nil {
 				lg.inner = S.inner
 			}
